@@ -411,8 +411,11 @@ def _generic(m: BufferMachine, op, vals, core):
             core.epoch += 1
             core.hist.append(("barrier",))
         for o in inner.operands:
-            if isinstance(o.type, MemRefType) and not op.is_ancestor(o.owner if not isinstance(o.owner, Block) else o.owner.parent_op()) and o not in captured:
+            outside = inner is not op and not op.is_ancestor(o.owner if not isinstance(o.owner, Block) else o.owner.parent_op())
+            if outside and isinstance(o.type, MemRefType) and o not in captured:
                 captured.append(o)
+            elif outside and not isinstance(o.type, MemRefType):
+                read.append(("captured-scalar", m.get(vals, o)))  # a value of the enclosing scope the body uses directly
     if captured:
         m.probe("kernel-reads-captured-buffer")
     for v in ins + acc_outs + [m.get(vals, o) for o in captured]:
